@@ -23,7 +23,7 @@ var c09Chars = []rune{'(', ')', '{', '}', '[', ']', ',', '.', '-', '+', ';', ':'
 var c09Frags = []string{
 	bn.KwVar, bn.KwPrint, bn.KwNil, bn.KwOr, bn.KwAnd, bn.KwElse, bn.KwContinue, bn.KwBreak,
 	bn.KwOr + "া", bn.KwVar + "_", "ni", "nill", "Nil", "নাহয়", // decomposed নাহয়: an identifier
-	"x", "ক১", "_", "12", "১২", "1.5", "৩.১৪", "1.", ".5",
+	"x", "ক১", "_", "12", "১২", "1.5", "৩.১৪", "1.", ".5", "9223372036854775807", "9223372036854775808", "18446744073709551616", "৯২২৩৩৭২০৩৬৮৫৪৭৭৫৮০৮", "123456789012345678901234567890",
 	"**", "*", "<=", "<<", "<", ">=", ">>", ">", "&&", "&", "||", "|", "==", "=", "!=", "!",
 	"//c", "/*c*/", "/*", "*/", "/", "\"s\"", "\"a\nb\"", "\"", "\n", " ", "#", "(", ";",
 }
